@@ -55,7 +55,7 @@ def plan(tier):
                  (3, [("near", 2, 2)], CONF_Q[:6], "some"),
                  (4, [("dense", 1, 2)], CONF_Q4, "some")]
     else:
-        specs = [(2, [("dense", 1, 5)], CONF_T, "all"), (2, [("dense", 6, 6)], CONF_T, "some"),
+        specs = [(2, [("dense", 1, 4)], CONF_T, "all"), (2, [("dense", 5, 6)], CONF_T, "some"),
                  (3, [("dense", 1, 3)], CONF_T, "all"), (3, [("dense", 4, 4)], CONF_Q, "some"),
                  (3, [("near", 2, 2)], CONF_Q[:6], "all"), (2, [("near", 2, 3)], CONF_Q, "all"),
                  (4, [("dense", 1, 3)], CONF_Q, "some")]
